@@ -299,6 +299,9 @@ def write_syn_models(isa, dirpath, rnd, fwd):
         isaforms[-1]["hidden_operands"] = [synth.flag("C", False, True)]
     arch = synth.write_arch_model(os.path.join(dirpath, "syn_%s.yml" % isa), isa, ["0", "1"], forms,
                                   load_default=[[1, "1"]], store_default=[[1, "1"]],
-                                  extras={"store_to_load_forward_latency": fwd, "p_index_latency": 1.0})
+                                  # every second model hides loads behind stores (a port-pressure matter: the edges and
+                                  # their weights, forwarding latency included, are what they are without it)
+                                  extras={"store_to_load_forward_latency": fwd, "p_index_latency": 1.0,
+                                          "hidden_loads": rnd.random() < 0.5})
     isadb = synth.write_isa_db(os.path.join(dirpath, "syn_isa_%s.yml" % isa), isa, isaforms)
     return arch, isadb
